@@ -68,7 +68,8 @@ class Lane(LaneBase):
     @staticmethod
     def rand_lagged_dag(rng):
         vs = ['X', 'Y', 'Z'][:rng.randint(1, 3)]
-        lags = [-2, -1, 0, 1][:rng.randint(1, 4)] if rng.random() < 0.8 else [0]
+        lags = rng.choice([[-2, -1, 0, 1][:rng.randint(1, 4)], [0], [0, 1], [0, 1, 2], [1, 2], [-1, 0], [-3, -1], [2],
+                           [-2, -1, 0, 1], [-1, 0, 1]])
         names = [histories.ts_name(v, l) for v in vs for l in lags]
         rng.shuffle(names)
         names = names[:rng.randint(1, min(6, len(names)))]
